@@ -36,8 +36,14 @@ RULE = (
     "sub-size map of the menu, F: all %d programs through the decorator / array_via_func_from / Grid2DOverSampled / "
     "config-driven adaptive scheme, I: iterative scheme over programs x schedules x accuracies x tolerances, each on a "
     "fresh sampler, followed by call histories f1,f2,f1 on ONE sampler object and on ONE grid through the decorator}; "
+    "plus kind T = (mask with n unmasked pixels out of 4-5 shapes per n, block of 120 maps): the COMPLETE product of "
+    "per-pixel sub-size maps over larger alphabets (up to 1..8), each map through the sampler tables only "
+    "(over-sampled grid count/positions/order, slim_for_sub_slim, sub_total, sub-pixel areas and their sum, binning of "
+    "labelled values, one affine function); "
     "non-trivial = G/F: mask has masked pixels and >= 2 unmasked pixels; I: at least two different stopping levels "
-    "were observed among the runs of the case" % N_PROGRAMS
+    "were observed among the runs of the case; T: n >= 2 and the block holds non-uniform maps (outcome lists which "
+    "aggregate identities of a uniform map - sum of squares = n*first^2 / n*last^2, sum = n*first / n*last, "
+    "first = last - some non-uniform map of the block satisfies by coincidence)" % N_PROGRAMS
 )
 ASSUMPTIONS = [
     "binning is value-oblivious (a weighted gather), so three labellings (injective signed, adversarial with "
@@ -59,6 +65,14 @@ ASSUMPTIONS = [
     "the two step-valued programs (indic, quant) are skipped for a (geometry, map) when a sub-pixel centre lies within "
     "1e-7 of one of their jumps (never for seed 0, where the smallest margin over all geometries/sub-sizes is 2e-5; "
     "outcome ':jump-tie-skip')",
+    "T: the index tables of a per-pixel map depend on the mask only through the number and slim order of its unmasked "
+    "pixels and on the map through each pixel's own entry (pixel k owns s_k^2 consecutive sub-pixels inside its own "
+    "cell), so the expected grid of a map is the concatenation over pixels of the reference grid rows of pixel k at "
+    "uniform sub-size s_k (the splice is asserted equal to ref.sub_grid on the map itself for the first and last map of "
+    "every block); an implementation shortcut keyed on ANY aggregate of the map (total sub-pixel count, sum, extremes, "
+    "first/last entry) that a non-uniform map shares with a uniform one by coincidence is reached because the product "
+    "over the alphabet is complete within the bound (e.g. [5,1,7], [3,1,1,5], [3,5,3,1,1], [2,4,1,1,1,1] all have "
+    "sum of squares = n*first^2)",
     "program count: %d distinct functions = 27 affine a*y+b*x+c (a,b,c in {-1,0,2}; includes 3 constants) + %d "
     "non-linear (y*x, |x|, 2 Gaussians, 2 half-plane-zero ReLUs, 2 negative-valued, sin*cos, peaked 1/(0.1+r^2), r); "
     "each is also called through 3 method styles (bare self-named, bare obj-named, stacked on to_array)"
@@ -76,8 +90,12 @@ BOUNDS = {
     "masks <= 6 cells. I: masks <= 6 cells x geometries {#0, #4} x 14 programs x schedules {[2,4],[2,4,8],[3,5,2]} x "
     "fractional accuracies {0.5,0.99,0.9999} x absolute tolerances {None,0.01}, direct call + decorated call; then "
     "4 pairs (f1,f2) x call history f1,f2,f1 on one OverSamplerIterate and on one Grid2D(OverSamplingIterate) "
-    "(configs ([2,4,8],0.99), ([2,4,8],0.9999), ([3,5,2],0.99,tol 0.01) rotating over the pairs)",
-    "thorough": "as quick with uniform maps 1..8, every map in {1,2,3}^n for n<=5 on geometries #4/#8 and n<=4 on "
+    "(configs ([2,4,8],0.99), ([2,4,8],0.9999), ([3,5,2],0.99,tol 0.01) rotating over the pairs). "
+    "T (tables only, array-form maps): every map in {1..8}^n for n<=4, {1,2,3,4,5}^5, {1,2,4}^6 (8+64+512+4096+3125+729 "
+    "maps) on each of 4-5 masks per pixel count n (full row 1xn, full column nx1, and the first / middle / last 3x3 "
+    "mask with n unmasked pixels in bit-pattern order), geometries #4/#8 alternating over the masks",
+    "thorough": "T with {1..8}^n n<=4, {1,2,3,4,5,7}^5, {1,2,3,4}^6 u {1,2,4,8}^6, {1,2,4}^n n=7,8 (3x4 frame for n>=7); "
+    "otherwise as quick with uniform maps 1..8, every map in {1,2,3}^n for n<=5 on geometries #4/#8 and n<=4 on "
     "the other 10, F with all entry points (+ uniform 4 and 8) on all 12 geometries for every mask, I on masks <= 9 "
     "cells x geometries {#0,#4,#8,#10}",
 }
@@ -227,6 +245,12 @@ def cases(tier, seed):
         if cells <= 6 or tier == "thorough":
             for gi in it_geoms:
                 yield ["I", h, w, bits, gi, int(seed), t]
+    # T: complete sub-size-map products (per-pixel maps over larger alphabets) on a few mask shapes per pixel count
+    for n in range(1, TABLE_NMAX[t] + 1):
+        nblocks = -(-table_map_count(n, t) // TABLE_BLOCK)
+        for mi, (h, w, bits) in enumerate(table_masks(n)):
+            for blk in range(nblocks):
+                yield ["T", h, w, bits, MAIN_GEOMS[mi % 2], int(seed), t, blk]
 
 
 def sub_maps(n, full, tier):
@@ -244,6 +268,56 @@ def sub_maps(n, full, tier):
     if full >= 1 and n <= (5 if full == 2 else 4):
         for mp in itertools.product((1, 2, 3), repeat=n):
             out.append(("p" + "".join(map(str, mp)), list(mp), False))
+    return out
+
+
+# T: per-pixel maps over larger alphabets, enumerated completely (itertools.product order) and cut into blocks of
+# TABLE_BLOCK maps per case. A non-uniform map can share any aggregate of a uniform map (sum of squares = n*s0^2 as in
+# [5,1,7] / [3,1,1,5] / [2,4,1,1,1,1], equal sums, equal extremes, first == last, ...) only by coincidence; the complete
+# product contains every such coincidence within the bound, whatever aggregate a shortcut might test.
+TABLE_BLOCK = 120
+TABLE_NMAX = {"q": 6, "t": 8}
+TABLE_ALPHABETS = {
+    # n unmasked pixels -> alphabets whose complete n-fold products are enumerated (union, first occurrence kept)
+    "q": {1: [(1, 2, 3, 4, 5, 6, 7, 8)], 2: [(1, 2, 3, 4, 5, 6, 7, 8)], 3: [(1, 2, 3, 4, 5, 6, 7, 8)],
+          4: [(1, 2, 3, 4, 5, 6, 7, 8)], 5: [(1, 2, 3, 4, 5)], 6: [(1, 2, 4)]},
+    "t": {1: [(1, 2, 3, 4, 5, 6, 7, 8)], 2: [(1, 2, 3, 4, 5, 6, 7, 8)], 3: [(1, 2, 3, 4, 5, 6, 7, 8)],
+          4: [(1, 2, 3, 4, 5, 6, 7, 8)], 5: [(1, 2, 3, 4, 5, 7)], 6: [(1, 2, 3, 4), (1, 2, 4, 8)],
+          7: [(1, 2, 4)], 8: [(1, 2, 4)]},
+}
+_TM = {}
+
+
+def table_maps(n, t):
+    """Every map of the T kind for n unmasked pixels, in a fixed order."""
+    if (n, t) not in _TM:
+        out, seen = [], set()
+        for alpha in TABLE_ALPHABETS[t][n]:
+            for mp in itertools.product(alpha, repeat=n):
+                if mp not in seen:
+                    seen.add(mp)
+                    out.append(mp)
+        _TM[(n, t)] = out
+    return _TM[(n, t)]
+
+
+def table_map_count(n, t):
+    return len(table_maps(n, t))
+
+
+def table_masks(n):
+    """Mask shapes with exactly n unmasked pixels: the full row 1xn, the full column nx1, and (3x3 frame for n <= 6, 3x4
+    frame above) the first, the middle and the last mask with n unmasked pixels in the enumeration order of the bit
+    patterns (unmasked block at the end / scattered / unmasked block at the start of the frame)."""
+    out = [(1, n, 0)]
+    if n > 1:
+        out.append((n, 1, 0))
+    h, w = (3, 3) if n <= 6 else (3, 4)
+    cells = h * w
+    pats = [b for b in range(2 ** cells - 1) if cells - bin(b).count("1") == n]
+    for b in (pats[0], pats[len(pats) // 2], pats[-1]):
+        if (h, w, b) not in out:
+            out.append((h, w, b))
     return out
 
 
@@ -346,7 +420,7 @@ class V9(V):
 def run_case(case):
     import autoarray as aa
 
-    kind, h, w, bits, gi, seed, t = case
+    kind, h, w, bits, gi, seed, t = case[:7]
     v = V9(ID)
     m = dom.mask_from_bits(h, w, bits)
     g = geoms(seed)[gi]
@@ -354,9 +428,67 @@ def run_case(case):
         run_G(aa, v, m, g, gi, seed, t)
     elif kind == "F":
         run_F(aa, v, m, g, gi, seed, t)
+    elif kind == "T":
+        run_T(aa, v, m, g, gi, seed, t, case[7])
     else:
         run_I(aa, v, m, g, gi, seed, t)
     return v.result()
+
+
+# ---- one sampler, one map: all tables ---------------------------------------------------------------------------------
+
+
+def check_map(aa, v, mask, m, g, cen, cscale, tol, seed, par, tag, smap, int_form, pts, owner, lean):
+    """Every table / position / binning observable of ONE uniform sampler for ONE sub-size map against the reference
+    (pts, owner) = sub-pixel centres and owning pixel of every sub-pixel, listed pixel by pixel in slim order."""
+    sy, sx, oy, ox = g
+    n = int((~m).sum())
+    P = classes()["P"]
+    T = pts.shape[0]
+    os_ = _sampler(aa, mask, smap, int_form)
+    gg = _a(os_.over_sampled_grid)
+    check_grid(v, gg, pts, tol, "map=%s" % tag)
+    # index table / areas / totals
+    sfs = _a(os_.slim_for_sub_slim)
+    v.ok(dom.exact(sfs, owner), "slim_for_sub_slim", lambda: "map=%s got %s want %s" % (tag, sfs.tolist(), owner.tolist()))
+    v.ok(int(os_.sub_total) == T, "sub_total", lambda: "map=%s got %s want %d" % (tag, os_.sub_total, T))
+    areas = _a(os_.sub_pixel_areas)
+    want_areas = np.array([sy * sx / (smap[k] ** 2) for k in owner.tolist()])
+    v.ok(areas.shape == want_areas.shape and bool(np.all(np.abs(areas - want_areas) <= 1e-12 * sy * sx)),
+         "sub_pixel_areas", lambda: "map=%s got %s want %s" % (tag, areas.tolist(), want_areas.tolist()))
+    v.ok(abs(float(areas.sum()) - n * sy * sx) <= 1e-12 * n * sy * sx * 10, "sub_pixel_areas:sum",
+         lambda: "map=%s sum %r want %r" % (tag, float(areas.sum()), n * sy * sx))
+    if int_form or len(set(smap)) == 1:
+        nat = _a(os_.sub_mask_native_for_sub_mask_slim)
+        want_nat = ref.sub_native_index(m, smap[0])
+        v.ok(dom.exact(nat, want_nat), "sub_mask_native_for_sub_mask_slim",
+             lambda: "map=%s got %s want %s" % (tag, nat.tolist(), want_nat.tolist()))
+    # binning of labelled sub-values
+    for lname, vals in labellings(T, seed, lean):
+        want = ref.bin_mean(vals, owner, n)
+        keep = vals.copy()
+        b = os_.binned_array_2d_from(array=vals)
+        sc = max(1.0, float(np.abs(vals).max()))
+        if _close(_a(b), want, sc):
+            v.ok(True, "binned_array_2d_from:mean")
+        else:
+            # the sampler has been used before (earlier labellings / maps share no state by specification): a fresh
+            # sampler that gets it right pins the defect on state kept between calls
+            bf = _sampler(aa, mask, smap, int_form).binned_array_2d_from(array=vals.copy())
+            v.fail("binned_array_2d_from:second-call-on-same-sampler" if (lname != "inj" and _close(_a(bf), want, sc))
+                   else "binned_array_2d_from:mean",
+                   "map=%s labels=%s got %s want %s (fresh sampler: %s)" % (tag, lname, _a(b).tolist(), want.tolist(), _a(bf).tolist()))
+        v.ok(dom.exact(vals, keep), "binned_array_2d_from:input-mutated", tag)
+        v.ok(dom.exact(_a(b.mask), m), "binned_array_2d_from:result-mask", tag)
+    b2 = os_.binned_array_2d_from(array=aa.ArrayIrregular(values=vals))
+    v.ok(_close(_a(b2), want, sc), "binned_array_2d_from:mean", lambda: "map=%s ArrayIrregular input" % tag)
+    # constants / affine functions are reproduced at pixel centres
+    for name in (("aff:2:-1:2",) if lean else ("aff:0:0:-1", "aff:2:-1:2", "aff:-1:2:0")):
+        prof = P(name, par)
+        out = _a(os_.array_via_func_from(func=P.raw, obj=prof))
+        want_c = feval(name, cen[:, 0], cen[:, 1], par)
+        v.ok(_close(out, want_c, cscale * 3), "binned:affine-exact-at-centre",
+             lambda: "map=%s f=%s got %s want %s" % (tag, name, out.tolist(), want_c.tolist()))
 
 
 # ---- G: sampler tables, positions, binning -------------------------------------------------------------------------
@@ -380,52 +512,7 @@ def run_G(aa, v, m, g, gi, seed, t):
     par = fun_params(seed)
     for tag, smap, int_form in maps:
         pts, owner = ref.sub_grid(m, sy, sx, oy, ox, smap)
-        T = pts.shape[0]
-        os_ = _sampler(aa, mask, smap, int_form)
-        gg = _a(os_.over_sampled_grid)
-        check_grid(v, gg, pts, tol, "map=%s" % tag)
-        # index table / areas / totals
-        sfs = _a(os_.slim_for_sub_slim)
-        v.ok(dom.exact(sfs, owner), "slim_for_sub_slim", lambda: "map=%s got %s want %s" % (tag, sfs.tolist(), owner.tolist()))
-        v.ok(int(os_.sub_total) == T, "sub_total", lambda: "map=%s got %s want %d" % (tag, os_.sub_total, T))
-        areas = _a(os_.sub_pixel_areas)
-        want_areas = np.array([sy * sx / (smap[k] ** 2) for k in owner.tolist()])
-        v.ok(areas.shape == want_areas.shape and bool(np.all(np.abs(areas - want_areas) <= 1e-12 * sy * sx)),
-             "sub_pixel_areas", lambda: "map=%s got %s want %s" % (tag, areas.tolist(), want_areas.tolist()))
-        v.ok(abs(float(areas.sum()) - n * sy * sx) <= 1e-12 * n * sy * sx * 10, "sub_pixel_areas:sum",
-             lambda: "map=%s sum %r want %r" % (tag, float(areas.sum()), n * sy * sx))
-        if int_form or len(set(smap)) == 1:
-            nat = _a(os_.sub_mask_native_for_sub_mask_slim)
-            want_nat = ref.sub_native_index(m, smap[0])
-            v.ok(dom.exact(nat, want_nat), "sub_mask_native_for_sub_mask_slim",
-                 lambda: "map=%s got %s want %s" % (tag, nat.tolist(), want_nat.tolist()))
-        # binning of labelled sub-values
-        lean = tag[0] == "p"
-        for lname, vals in labellings(T, seed, lean):
-            want = ref.bin_mean(vals, owner, n)
-            keep = vals.copy()
-            b = os_.binned_array_2d_from(array=vals)
-            sc = max(1.0, float(np.abs(vals).max()))
-            if _close(_a(b), want, sc):
-                v.ok(True, "binned_array_2d_from:mean")
-            else:
-                # the sampler has been used before (earlier labellings / maps share no state by specification): a fresh
-                # sampler that gets it right pins the defect on state kept between calls
-                bf = _sampler(aa, mask, smap, int_form).binned_array_2d_from(array=vals.copy())
-                v.fail("binned_array_2d_from:second-call-on-same-sampler" if (lname != "inj" and _close(_a(bf), want, sc))
-                       else "binned_array_2d_from:mean",
-                       "map=%s labels=%s got %s want %s (fresh sampler: %s)" % (tag, lname, _a(b).tolist(), want.tolist(), _a(bf).tolist()))
-            v.ok(dom.exact(vals, keep), "binned_array_2d_from:input-mutated", tag)
-            v.ok(dom.exact(_a(b.mask), m), "binned_array_2d_from:result-mask", tag)
-        b2 = os_.binned_array_2d_from(array=aa.ArrayIrregular(values=vals))
-        v.ok(_close(_a(b2), want, sc), "binned_array_2d_from:mean", lambda: "map=%s ArrayIrregular input" % tag)
-        # constants / affine functions are reproduced at pixel centres
-        for name in (("aff:2:-1:2",) if lean else ("aff:0:0:-1", "aff:2:-1:2", "aff:-1:2:0")):
-            prof = P(name, par)
-            out = _a(os_.array_via_func_from(func=P.raw, obj=prof))
-            want_c = feval(name, cen[:, 0], cen[:, 1], par)
-            v.ok(_close(out, want_c, cscale * 3), "binned:affine-exact-at-centre",
-                 lambda: "map=%s f=%s got %s want %s" % (tag, name, out.tolist(), want_c.tolist()))
+        check_map(aa, v, mask, m, g, cen, cscale, tol, seed, par, tag, smap, int_form, pts, owner, tag[0] == "p")
     # dataset grids (anchor autoarray/dataset/grids.py)
     from autoarray.dataset.grids import GridsDataset
 
@@ -451,6 +538,55 @@ def run_G(aa, v, m, g, gi, seed, t):
         check_grid(v, g6, pts2, tol, "GridsDataset.non_uniform")
     v.ok(np.all(np.abs(_a(gd2.non_uniform) - cen) <= tol) and np.all(np.abs(_a(gd2.pixelization) - cen) <= tol),
          "GridsDataset:grid-values")
+
+
+# ---- T: complete products of per-pixel sub-size maps (tables only, no function grammar) --------------------------------------
+_AGG = (
+    ("sumsq=n*first^2", lambda a: int((a ** 2).sum()) == a.size * int(a[0]) ** 2),
+    ("sumsq=n*last^2", lambda a: int((a ** 2).sum()) == a.size * int(a[-1]) ** 2),
+    ("sum=n*first", lambda a: int(a.sum()) == a.size * int(a[0])),
+    ("first=last", lambda a: a[0] == a[-1]),
+    ("sum=n*last", lambda a: int(a.sum()) == a.size * int(a[-1])),
+)
+
+
+def run_T(aa, v, m, g, gi, seed, t, blk):
+    sy, sx, oy, ox = g
+    n = int((~m).sum())
+    mask = _mk_mask(aa, m, g)
+    cen = ref.pixel_centres(m, sy, sx, oy, ox)
+    cscale = max(1.0, float(np.abs(cen).max()) + sy + sx)
+    tol = 1e-12 * cscale
+    par = fun_params(seed)
+    maps = table_maps(n, t)[blk * TABLE_BLOCK:(blk + 1) * TABLE_BLOCK]
+    # reference, from the definition: the sub-pixels of pixel k are the centres of ITS s_k x s_k partition and pixels are
+    # listed one after the other in slim order, so the expected grid of a map is the concatenation over k of pixel k's rows of
+    # the reference grid with uniform sub-size s_k (ref.sub_grid is called once per sub-size, not once per map)
+    blocks = {}
+    for s in sorted(set(x for mp in maps for x in mp)):
+        pu, ou = ref.sub_grid(m, sy, sx, oy, ox, [s] * n)
+        for k in range(n):
+            blocks[(k, s)] = pu[ou == k]
+    coincide = set()
+    nonuni = 0
+    for j, mp in enumerate(maps):
+        smap = list(mp)
+        pts = np.concatenate([blocks[(k, s)] for k, s in enumerate(smap)], axis=0)
+        owner = np.repeat(np.arange(n), np.array(smap, dtype=int) ** 2)
+        if j in (0, len(maps) - 1):
+            # harness self-check: the spliced reference is the reference model evaluated on the map itself
+            p0, o0 = ref.sub_grid(m, sy, sx, oy, ox, smap)
+            if not (dom.exact(p0, pts) and dom.exact(o0, owner)):
+                raise RuntimeError("C09 harness: spliced reference differs from ref.sub_grid for map %s" % (smap,))
+        if len(set(smap)) > 1:
+            nonuni += 1
+            a = np.array(smap, dtype=np.int64)
+            for name, pred in _AGG:
+                if pred(a):
+                    coincide.add(name)
+        check_map(aa, v, mask, m, g, cen, cscale, tol, seed, par, "t" + ".".join(map(str, smap)), smap, False, pts, owner, True)
+    v.nontrivial = n >= 2 and nonuni > 0
+    v.outcome = "T:n%d:%s" % (n, "coincide[%s]" % ",".join(sorted(coincide)) if coincide else "no-coincidence")
 
 
 # ---- F: programs through the decorator and array_via_func_from ------------------------------------------------------
